@@ -483,3 +483,101 @@ func (p *Program) lookupStd(pkg, name string) (types.Object, bool) {
 	o := sp.Pkg.Scope().Lookup(name)
 	return o, o != nil
 }
+
+// ---- the FSM's applied-state record is confined to the FSM goroutine ---------------------------------
+//
+// RaftNode.state is replaced by applyAdd / loadState without any lock: that is sound only because
+// every access happens on raft's FSM goroutine (Apply, Restore, Snapshot) or in the constructor
+// before raft starts. An access from a request path (a query, Add, a handler) races with Apply.
+// Decided on the static call graph of the module: every function touching the field is reached
+// only from the FSM interface methods of the node or from its constructors.
+func fsmStateConfined(c *Ctx, rule string) {
+	p := c.P
+	node := p.NamedType(pkgConsensus, "RaftNode")
+	if node == nil {
+		fatalf("type consensus.RaftNode not found")
+	}
+	callers := map[*ssa.Function][]*ssa.Function{}
+	for _, fn := range p.ModFuncs {
+		if !p.Production(fn) {
+			continue
+		}
+		fn := fn
+		eachInstr(fn, func(in ssa.Instruction) {
+			if cc := callCommon(in); cc != nil && cc.StaticCallee() != nil {
+				callers[cc.StaticCallee()] = append(callers[cc.StaticCallee()], fn)
+			}
+			if mc, ok := in.(*ssa.MakeClosure); ok {
+				if g, ok := mc.Fn.(*ssa.Function); ok {
+					callers[g] = append(callers[g], fn)
+					if m := boundTarget(g); m != nil {
+						callers[m] = append(callers[m], fn)
+					}
+				}
+			}
+		})
+	}
+	allowed := func(f *ssa.Function) bool {
+		if f.Signature.Recv() != nil && types.Identical(deref(f.Signature.Recv().Type()), node) {
+			switch f.Name() {
+			case "Apply", "Restore", "Snapshot":
+				return true
+			}
+		}
+		if f.Signature.Recv() == nil && f.Signature.Results().Len() > 0 && types.Identical(deref(f.Signature.Results().At(0).Type()), node) {
+			return true // a constructor: raft is not running yet
+		}
+		return false
+	}
+	n := 0
+	for _, fn := range p.ModFuncs {
+		if !p.Production(fn) {
+			continue
+		}
+		fn := fn
+		var site ssa.Instruction
+		eachInstr(fn, func(in ssa.Instruction) {
+			if fa, ok := in.(*ssa.FieldAddr); ok && types.Identical(deref(fa.X.Type()), node) && structFieldName(node, fa.Field) == "state" {
+				site = in
+			}
+		})
+		if site == nil {
+			continue
+		}
+		n++
+		// entries from which fn is reached
+		var bad []string
+		seen := map[*ssa.Function]bool{}
+		var up func(f *ssa.Function, depth int)
+		up = func(f *ssa.Function, depth int) {
+			if seen[f] || depth > 12 {
+				return
+			}
+			seen[f] = true
+			if allowed(f) {
+				return
+			}
+			cs := callers[f]
+			if f.Parent() != nil {
+				cs = append(cs, f.Parent())
+			}
+			if len(cs) == 0 {
+				bad = append(bad, funcName(f))
+				return
+			}
+			// an exported method can also be entered from outside the static graph (interfaces)
+			if f.Object() != nil && f.Object().Exported() && f.Signature.Recv() != nil {
+				bad = append(bad, funcName(f))
+			}
+			for _, g := range cs {
+				up(g, depth+1)
+			}
+		}
+		up(fn, 0)
+		sort.Strings(bad)
+		c.Check(len(bad) == 0, rule, funcName(fn)+":fsm-state", site.Pos(), "touches RaftNode.state; reached only from the FSM methods and the constructors", "RaftNode.state is accessed in a function reachable from "+strings.Join(bad, ", ")+": the record is replaced by Apply/Restore on raft's FSM goroutine without a lock, so this access races with the apply path")
+	}
+	if n == 0 {
+		c.Fail(rule, "fsm-state", 0, "no access to RaftNode.state found (the applied-state record is gone)")
+	}
+}
